@@ -190,6 +190,13 @@ class BufMixin:
         raise OutOfReach('buffer method ' + nm)
 
     def buf_builtin(self, st, fr, name, args, kwargs, node):
+        if name == 'empty' and getattr(self.ctx, 'opaque_alloc', False) and not (fr is not None and fr.spec_only) \
+                and args and not isinstance(args[0], (list, tuple)):
+            # np.empty(n) in the opaque-buffer model: a new flat buffer of n entries holding garbage
+            b = self.new_buf(st, 'empty', (False, fresh('empty_G', FIELD), fresh('empty_lay', 'int')))
+            self.safety(st, fr, 'alloc_nonneg', compare('GtE', args[0], 0), node)
+            st.pc.append(b.size == Z(args[0]))
+            return b
         if name == 'split' and args and isinstance(args[0], (Buf, BufRef, BufView)):
             return [BufView(self.as_ref(args[0])), None]
         return NotImplemented
